@@ -3,10 +3,10 @@
 
   With reference arguments two names may legitimately share mutable objects, so separation is no
   longer a state invariant.  What remains true of every reachable heap is heap-wide and local:
-    (i')  `ImmClosedX`  an immutable object refers to immutable objects — or to the Python list that
-                        backs a default `CTxWitness` (class `.seq .stacks`), which no operation writes;
+    (i')  `ImmClosedX`  an immutable object refers to immutable objects only (no exception: the
+                        constructors of the immutable classes freeze what they are given, D23);
     (ii)  `CacheOK`     filled caches of immutable objects are correct;
-          `KindOKX`     classes without a mutable variant are immutable (that list excepted);
+          `KindOKX`     classes without a mutable variant are immutable;
           `TypedRefs`   every reference slot holds an object of the class the slot is for
                         (so object graphs are acyclic, at most 6 deep, and always serialisable);
           `DefaultsOK`  the shared default objects are intact.
@@ -17,15 +17,15 @@ import BtcVerif.Model.HeapX
 namespace BtcVerif.Model.Heap
 open BtcVerif BtcVerif.Spec.ValueSem BtcVerif.Model.HeapX
 
-/-- immutable, or the list behind a default witness -/
-def Frozen (o : Obj) : Prop := o.isMut = false ∨ o.sc.kind = 10
+/-- immutable (kept as a name: audit 2 / D23 removed the former exception for the list behind a default witness) -/
+def Frozen (o : Obj) : Prop := o.isMut = false
 
 def ImmClosedX (h : Heap) : Prop :=
   ∀ (a : Addr) (o : Obj), h[a]? = some o → o.isMut = false →
     ∀ c ∈ o.refs, ∃ oc : Obj, h[c]? = some oc ∧ Frozen oc
 
 def KindOKX (h : Heap) : Prop :=
-  ∀ (a : Addr) (o : Obj), h[a]? = some o → o.sc.alwaysImm = true → o.sc.kind ≠ 10 → o.isMut = false
+  ∀ (a : Addr) (o : Obj), h[a]? = some o → o.sc.alwaysImm = true → o.isMut = false
 
 /-- the classes the reference slots of an object of class number `k` hold -/
 def refKindsK : Nat → List Nat → Prop
@@ -72,17 +72,7 @@ theorem typed_child {h : Heap} {o : Obj} (ht : TypedObj h o) {c : Addr} (hc : c 
   obtain ⟨oc, hoc, hsc⟩ := kindAt_some hkc
   exact ⟨oc, ks, hoc, hok, by rw [hsc]; exact hk⟩
 
-/-- the items of a list behind a default witness are `CTxInWitness` objects, hence immutable -/
-theorem frozen_child {h : Heap} (hk : KindOKX h) {o : Obj} (ht : TypedObj h o) (hf : o.sc.kind = 10)
-    {c : Addr} (hc : c ∈ o.refs) : ∃ oc : Obj, h[c]? = some oc ∧ oc.isMut = false := by
-  obtain ⟨oc, ks, hoc, hok, hmem⟩ := typed_child ht hc
-  simp only [refKindsOK, hf, refKindsK] at hok
-  have h3 : oc.sc.kind = 3 := hok _ hmem
-  refine ⟨oc, hoc, hk c oc hoc ?_ (by omega)⟩
-  cases hs : oc.sc <;> simp [hs, Scalars.kind] at h3 <;> try rfl
-  rename_i k; cases k <;> simp at h3
-
-/-- (i') everything reachable from an immutable object is immutable, or the list behind a default witness -/
+/-- (i') everything reachable from an immutable object is immutable -/
 theorem imm_reachX {h : Heap} (hic : ImmClosedX h) (hk : KindOKX h) (ht : TypedRefs h) :
     ∀ {f : Nat} {a : Addr} {t : ATree}, unfoldA f h a = some t → (∀ o : Obj, h[a]? = some o → Frozen o) →
       ∀ x ∈ addrs t, ∃ ox : Obj, h[x]? = some ox ∧ Frozen ox
@@ -97,25 +87,20 @@ theorem imm_reachX {h : Heap} (hic : ImmClosedX h) (hk : KindOKX h) (ht : TypedR
       obtain ⟨c, hc, huc⟩ := mapO_mem hkids hk'
       have hfc : ∀ oc : Obj, h[c]? = some oc → Frozen oc := by
         intro oc hoc
-        rcases hfa o ho with hm | hf
-        · obtain ⟨oc', hoc', hfr⟩ := hic a o ho hm c hc
-          rw [hoc] at hoc'; cases hoc'; exact hfr
-        · obtain ⟨oc', hoc', hm'⟩ := frozen_child hk (ht a o ho) hf hc
-          rw [hoc] at hoc'; cases hoc'; exact Or.inl hm'
+        obtain ⟨oc', hoc', hfr⟩ := hic a o ho (hfa o ho) c hc
+        rw [hoc] at hoc'; cases hoc'; exact hfr
       exact imm_reachX hic hk ht huc hfc x hxk
 
-/-- a write to a mutable object that is not such a list is not seen from frozen objects -/
+/-- a write to a mutable object is not seen from immutable objects -/
 theorem unfoldA_set_frameX {h : Heap} (hic : ImmClosedX h) (hk : KindOKX h) (ht : TypedRefs h)
-    {x : Addr} {ox o' : Obj} (hox : h[x]? = some ox) (hmx : ox.isMut = true) (hkx : ox.sc.kind ≠ 10)
+    {x : Addr} {ox o' : Obj} (hox : h[x]? = some ox) (hmx : ox.isMut = true)
     {f : Nat} {a : Addr} {t : ATree} (hu : unfoldA f h a = some t) (hfa : ∀ o : Obj, h[a]? = some o → Frozen o) :
     unfoldA f (h.set x o') a = some t := by
   apply unfoldA_set_frame hu
   intro hmem
   obtain ⟨ox', hox', hfr⟩ := imm_reachX hic hk ht hu hfa x hmem
   rw [hox] at hox'; cases hox'
-  rcases hfr with h1 | h1
-  · rw [hmx] at h1; cases h1
-  · exact hkx h1
+  rw [hfr] at hmx; cases hmx
 
 theorem kindAt_set_same {h : Heap} {x : Addr} {ox o' : Obj} (hox : h[x]? = some ox)
     (hk : o'.sc.kind = ox.sc.kind) (c : Addr) : kindAt (h.set x o') c = kindAt h c := by
@@ -131,10 +116,10 @@ theorem typedObj_congr {h h' : Heap} (hk : ∀ c, kindAt h' c = kindAt h c) {o :
   obtain ⟨ks, hks, hok⟩ := ht
   exact ⟨ks, by rw [← hks]; exact mapO_congr_idx rfl (fun i a b ha hb => by rw [ha] at hb; cases hb; exact hk a), hok⟩
 
-/-- **write**: a mutable object `x` (not the list behind a default witness) is overwritten by a mutable
+/-- **write**: a mutable object `x` is overwritten by a mutable
     object of the same class, with the same cache slots and well-typed references -/
 theorem invx_write {h : Heap} (hinv : InvX h) {x : Addr} {ox o' : Obj} (hox : h[x]? = some ox)
-    (hmx : ox.isMut = true) (hkx : ox.sc.kind ≠ 10) (hm' : o'.isMut = true) (hk' : o'.sc.kind = ox.sc.kind)
+    (hmx : ox.isMut = true) (hm' : o'.isMut = true) (hk' : o'.sc.kind = ox.sc.kind)
     (ht' : TypedObj h o') : InvX (h.set x o') := by
   have hxl := (List.getElem?_eq_some_iff.mp hox).1
   have hself : (h.set x o')[x]? = some o' := by simp [List.getElem?_set_self hxl]
@@ -148,17 +133,15 @@ theorem invx_write {h : Heap} (hinv : InvX h) {x : Addr} {ox o' : Obj} (hox : h[
       have hcx : c ≠ x := by
         intro e; subst e
         rw [hox] at hoc; cases hoc
-        rcases hfr with h1 | h1
-        · rw [hmx] at h1; cases h1
-        · exact hkx h1
+        rw [hfr] at hmx; cases hmx
       exact ⟨oc, by rw [List.getElem?_set_ne (fun e => hcx e.symm)]; exact hoc, hfr⟩
-  · intro a oa hoa hai hk10
+  · intro a oa hoa hai
     by_cases hax : a = x
     · subst hax; rw [hself] at hoa; cases hoa
-      have := hinv.kindOK a ox hox (by rw [← (kind_alwaysImm hk').1]; exact hai) (by rw [← hk']; exact hk10)
+      have := hinv.kindOK a ox hox (by rw [← (kind_alwaysImm hk').1]; exact hai)
       rw [hmx] at this; cases this
     · rw [List.getElem?_set_ne (fun e => hax e.symm)] at hoa
-      exact hinv.kindOK a oa hoa hai hk10
+      exact hinv.kindOK a oa hoa hai
   · intro a oa hoa hm
     by_cases hax : a = x
     · subst hax; rw [hself] at hoa; cases hoa; rw [hm'] at hm; cases hm
@@ -170,8 +153,8 @@ theorem invx_write {h : Heap} (hinv : InvX h) {x : Addr} {ox o' : Obj} (hox : h[
         cases hu : unfoldA D h a with
         | none => simp [hu] at hv
         | some ta =>
-          rw [unfoldA_set_frameX hinv.immClosed hinv.kindOK hinv.typed hox hmx hkx hu
-            (fun o ho => by rw [hoa] at ho; cases ho; exact Or.inl hm)]
+          rw [unfoldA_set_frameX hinv.immClosed hinv.kindOK hinv.typed hox hmx hu
+            (fun o ho => by rw [hoa] at ho; cases ho; exact hm)]
           simpa [hu] using hv
       constructor
       · intro c hc; obtain ⟨v, hv, hi⟩ := c1 c hc; exact ⟨v, hkeep v hv, hi⟩
@@ -232,10 +215,10 @@ theorem invx_same {h : Heap} (hinv : InvX h) {x : Addr} {o o' : Obj} (hox : h[x]
     obtain ⟨ob, hob, e1, _, e3⟩ := hback a oa hoa
     obtain ⟨oc, hoc, hfr⟩ := hinv.immClosed a ob hob (by rw [← e1]; exact hm) c (by rw [← e3]; exact hc)
     obtain ⟨oc', hoc', f1, f2, _⟩ := hget c oc hoc
-    exact ⟨oc', hoc', by unfold Frozen at hfr ⊢; rw [f1, f2]; exact hfr⟩
-  · intro a oa hoa hai hk10
+    exact ⟨oc', hoc', by unfold Frozen at hfr ⊢; rw [f1]; exact hfr⟩
+  · intro a oa hoa hai
     obtain ⟨ob, hob, e1, e2, _⟩ := hback a oa hoa
-    rw [e1]; exact hinv.kindOK a ob hob (by rw [← e2]; exact hai) (by rw [← e2]; exact hk10)
+    rw [e1]; exact hinv.kindOK a ob hob (by rw [← e2]; exact hai)
   · intro a oa hoa hm
     have keep : ∀ v, absVal h a = some v → absVal (h.set x o') a = some v :=
       fun v hv => absVal_set_same hox h1 h2 h3 hv
@@ -276,20 +259,18 @@ theorem TrX.trans {h h1 h2 : Heap} (t1 : TrX h h1) (t2 : TrX h1 h2) : TrX h h2 :
   refine ⟨t2.inv, ?_⟩
   intro a o ho hf
   obtain ⟨o1, ho1, e1, e2, e3⟩ := t1.keep a o ho hf
-  obtain ⟨o2, ho2, f1, f2, f3⟩ := t2.keep a o1 ho1 (by unfold Frozen at hf ⊢; rw [e1, e2]; exact hf)
+  obtain ⟨o2, ho2, f1, f2, f3⟩ := t2.keep a o1 ho1 (by unfold Frozen at hf ⊢; rw [e1]; exact hf)
   exact ⟨o2, ho2, by rw [f1, e1], by rw [f2, e2], by rw [f3, e3]⟩
 
 theorem trx_write {h : Heap} (hinv : InvX h) {x : Addr} {ox o' : Obj} (hox : h[x]? = some ox)
-    (hmx : ox.isMut = true) (hkx : ox.sc.kind ≠ 10) (hm' : o'.isMut = true) (hk' : o'.sc.kind = ox.sc.kind)
+    (hmx : ox.isMut = true) (hm' : o'.isMut = true) (hk' : o'.sc.kind = ox.sc.kind)
     (ht' : TypedObj h o') : TrX h (h.set x o') := by
-  refine ⟨invx_write hinv hox hmx hkx hm' hk' ht', ?_⟩
+  refine ⟨invx_write hinv hox hmx hm' hk' ht', ?_⟩
   intro a o ho hf
   have hax : a ≠ x := by
     intro e; subst e
     rw [hox] at ho; cases ho
-    rcases hf with h1 | h1
-    · rw [hmx] at h1; cases h1
-    · exact hkx h1
+    rw [hf] at hmx; cases hmx
   exact ⟨o, by rw [List.getElem?_set_ne (fun e => hax e.symm)]; exact ho, rfl, rfl, rfl⟩
 
 theorem trx_ext {h : Heap} (hinv : InvX h) {e : Heap}
@@ -325,11 +306,8 @@ theorem unfoldA_keep {h h' : Heap} (hic : ImmClosedX h) (hk : KindOKX h) (ht : T
       intro c hc b hb
       have hfc : ∀ oc : Obj, h[c]? = some oc → Frozen oc := by
         intro oc hoc
-        rcases hfa o ho with hm | hf
-        · obtain ⟨oc', hoc', hfr⟩ := hic a o ho hm c hc
-          rw [hoc] at hoc'; cases hoc'; exact hfr
-        · obtain ⟨oc', hoc', hm'⟩ := frozen_child hk (ht a o ho) hf hc
-          rw [hoc] at hoc'; cases hoc'; exact Or.inl hm'
+        obtain ⟨oc', hoc', hfr⟩ := hic a o ho (hfa o ho) c hc
+        rw [hoc] at hoc'; cases hoc'; exact hfr
       exact unfoldA_keep hic hk ht hkeep hb hfc)
     rw [e1, e2] at this; exact this
 
